@@ -152,12 +152,20 @@ pub fn guarded_test<C>(test: &(dyn Fn(&C) -> TestResult + Sync), case: &C) -> Te
 struct Slot {
     thread: libc::pthread_t,
     running: Option<(String, String, String, u64)>, // (property, sub, case json, cpu ns at start)
+    /// watchdog bookkeeping: (start value identifying the execution, cpu ns at the last tick,
+    /// accumulated cpu ns counted in steps of at most `TICK_CAP_NS`)
+    seen: Option<(u64, u64, u64)>,
 }
 
 static SLOTS: Mutex<Vec<Arc<Mutex<Slot>>>> = Mutex::new(Vec::new());
 static WATCHDOG_STARTED: AtomicBool = AtomicBool::new(false);
 /// CPU seconds a single case may use before it is declared non-returning.
 pub const CASE_CPU_LIMIT_S: u64 = 30;
+/// A single watchdog tick never counts more CPU time than this: a jump of the thread clock (the
+/// sandbox being paused for a snapshot charges the whole pause to the running thread) must not be
+/// mistaken for a case that keeps computing. The limit therefore needs >= 15 consecutive ticks in
+/// which the same execution was observed burning CPU.
+const TICK_CAP_NS: u64 = 2_000_000_000;
 
 thread_local! {
     static MY_SLOT: RefCell<Option<Arc<Mutex<Slot>>>> = const { RefCell::new(None) };
@@ -184,6 +192,7 @@ fn my_slot() -> Arc<Mutex<Slot>> {
             let slot = Arc::new(Mutex::new(Slot {
                 thread: unsafe { libc::pthread_self() },
                 running: None,
+                seen: None,
             }));
             SLOTS.lock().unwrap().push(slot.clone());
             *s = Some(slot);
@@ -200,17 +209,34 @@ fn start_watchdog() {
         std::thread::sleep(std::time::Duration::from_millis(1500));
         let slots: Vec<_> = SLOTS.lock().unwrap().clone();
         for s in slots {
-            let g = s.lock().unwrap();
-            if let Some((prop, sub, case, start)) = &g.running {
-                if let Some(now) = thread_cpu_ns(g.thread) {
-                    if now.saturating_sub(*start) > CASE_CPU_LIMIT_S * 1_000_000_000 {
+            let mut g = s.lock().unwrap();
+            let Some(start) = g.running.as_ref().map(|r| r.3) else {
+                g.seen = None;
+                continue;
+            };
+            let Some(now) = thread_cpu_ns(g.thread) else { continue };
+            let acc = match g.seen {
+                Some((id, last, acc)) if id == start => acc + now.saturating_sub(last).min(TICK_CAP_NS),
+                _ => now.saturating_sub(start).min(TICK_CAP_NS),
+            };
+            g.seen = Some((start, now, acc));
+            if let Some((prop, sub, case, _)) = &g.running {
+                {
+                    if acc > CASE_CPU_LIMIT_S * 1_000_000_000 {
                         let v: Value = serde_json::from_str(case).unwrap_or(Value::Null);
                         let path = write_replay(prop, sub, &v, "case did not return (CPU-time watchdog)");
                         println!(
                             "HANG property={prop} sub={sub}: a single case used more than {CASE_CPU_LIMIT_S}s of CPU time"
                         );
-                        println!("VIOLATION property={prop} replay={}", path.display());
-                        std::process::exit(1);
+                        // Only C03 ("without ... hanging") and C12 ("without ... spinning") state
+                        // termination; for every other property a case that does not return is
+                        // reported as inconclusive (exit 2), never as a violation.
+                        if matches!(prop.as_str(), "C03" | "C12") {
+                            println!("VIOLATION property={prop} replay={}", path.display());
+                            std::process::exit(1);
+                        }
+                        println!("INCONCLUSIVE property={prop} replay={} (no termination claim in this property)", path.display());
+                        std::process::exit(2);
                     }
                 }
             }
@@ -709,6 +735,8 @@ pub fn run_property(p: &Property, ctx: &Ctx, only_sub: Option<&str>) -> i32 {
                 let Ok(v) = serde_json::from_str::<Value>(&text) else { continue };
                 let Some(s) = p.subs.iter().find(|s| Some(s.name()) == v["sub"].as_str()) else { continue };
                 regress_run += 1;
+                start_watchdog();
+                let _g = mark_running(p.id, s.name(), &v["case"].to_string());
                 match s.replay(v["case"].clone()) {
                     Ok(Ok(_)) => {},
                     Ok(Err(fl)) => {
@@ -848,6 +876,8 @@ pub fn replay_file(props: &[Property], path: &str) -> i32 {
         eprintln!("unknown sub-check {prop}/{sub}");
         return 2;
     };
+    start_watchdog();
+    let _g = mark_running(prop, sub, &v["case"].to_string());
     match s.replay(v["case"].clone()) {
         Err(e) => {
             eprintln!("{e}");
